@@ -134,7 +134,15 @@ def run_one(job):
     return r
 
 
+_built = set()
+
+
 def run_many(ctx, jobs, workers=None):
+    # every check rebuilds gama-local from /repo's current working tree before using it
+    for kind in set(j.get("kind", "plain") for j in jobs):
+        if kind not in _built:
+            vlib.build(kind, ["gama-local"])
+            _built.add(kind)
     tmp = os.path.join(ctx.outdir, "tmp")
     os.makedirs(tmp, exist_ok=True)
     for j in jobs:
